@@ -1,6 +1,6 @@
 \* C18: theorems + coefficient tables on the full grid (4 values per symbol)
 CONSTANTS
-    Nets = {"chain2", "branch", "rev", "cycle", "pl"}
+    Nets = {"chain2", "branch", "rev", "cycle", "ia", "pl"}
     Grid = "full"
     EmitOn = TRUE
 INIT Init
@@ -10,6 +10,8 @@ INVARIANT QuotExact
 INVARIANT SteadyIsSteady
 INVARIANT Summation
 INVARIANT QuotNearD
+INVARIANT TotalDiffers
+INVARIANT InitIsState
 INVARIANT Witness
 INVARIANT Emit
 CHECK_DEADLOCK FALSE
